@@ -127,14 +127,19 @@ func (c *P1Claims) SetSoftwareComponents(scs []ISwComponent) error {
 		return nil
 	}
 
-	if c.SwComponents == nil {
-		c.SwComponents = &SwComponents[*SwComponent]{}
+	// a refused list must leave the claims-set as it was: attach a new
+	// container only once it has taken the value (an empty container in
+	// place of none is emitted as null by types embedding P1Claims)
+	sw := c.SwComponents
+	if sw == nil {
+		sw = &SwComponents[*SwComponent]{}
 	}
 
-	if err := c.SwComponents.Replace(scs); err != nil {
+	if err := sw.Replace(scs); err != nil {
 		return err
 	}
 
+	c.SwComponents = sw
 	c.NoSwMeasurements = nil
 
 	return nil
